@@ -114,10 +114,21 @@ pub fn set_sched_hook(f: fn(&'static str)) -> bool {
     SCHED_HOOK.set(f).is_ok()
 }
 
+static FINE_POINTS: std::sync::atomic::AtomicBool = std::sync::atomic::AtomicBool::new(false);
+
+/// Fine granularity: every group operation is a scheduling point. Coarse (default): only the operations that touch
+/// state shared between threads (the precomputed table: construction and use); multiscalar multiplications,
+/// compression and decompression of thread-local data commute with every other thread's steps.
+pub fn set_fine_points(on: bool) {
+    FINE_POINTS.store(on, std::sync::atomic::Ordering::SeqCst);
+}
+
 #[inline]
 fn sched(label: &'static str) {
     if let Some(f) = SCHED_HOOK.get() {
-        f(label);
+        if label.starts_with("F.precomp") || FINE_POINTS.load(std::sync::atomic::Ordering::Relaxed) {
+            f(label);
+        }
     }
 }
 
